@@ -324,6 +324,12 @@ def gen_edit(r, files, dirs, root, in_build: bool, safe: bool = False, initial=N
     if kind == "write_under_moved_dir":
         # the rename and the write happen before the director handles the rename: inotify reports the write
         # through the old watch, i.e. as an UPDATE of a path that no longer exists
+        inside = sorted(p for p in files if p.startswith("data/sub/"))
+        if inside and "data/sub" in dirs and r.random() < 0.4:
+            # glob matches inside the static tree that no step reads: no node, not re-hashed
+            p = r.choice(inside)
+            dst = f"data/sub_w{n}"
+            return kind, [("move", "data/sub", dst), ("write", dst + p[len("data/sub"):], text(p) + f"moved {n}\n")]
         cands = [p for p in statics if "/" in p and p.split("/")[0] in topdirs]
         if cands:
             p = r.choice(cands)
@@ -802,7 +808,8 @@ class AppliedLog:
                     except Exception:  # noqa: BLE001
                         disk[label] = None
                 watcher = log.current_watcher()
-                log.watch = {"rows": rows, "disk": disk, "applied": [], "pruned": None,
+                present = sorted(p for p in map(str, paths) if os.path.lexists(p))
+                log.watch = {"rows": rows, "disk": disk, "applied": [], "pruned": None, "present": present,
                              "updated": sorted(watcher.updated) if watcher else [],
                              "deleted": sorted(watcher.deleted) if watcher else []}
             return result
@@ -884,7 +891,9 @@ class AppliedLog:
         if w is not None and w["pruned"] is not None and all(v is not None for v in w["disk"].values()):
             key = lambda s: s.encode("utf-8", "surrogatepass")  # noqa: E731
             line = (f"c14 applied {node_tok(w['rows'])} {disk_tok(w['disk'])} {hexlist(w['updated'])} "
-                    f"{hexlist(w['deleted'])} .")
+                    f"{hexlist(w['deleted'])} . {hexlist(w['present'])}")
+            if any(p not in w["present"] and not any(row[0] == p for row in w["rows"]) for p in w["updated"]):
+                self.ctx.stats.count("applied-watch-update-of-absent-nodeless-path")
             want = (f"watch={applied_tok(w['applied'])} pruned={hexlist(sorted(w['pruned'], key=key))} "
                     f"deleted={hexlist(sorted(w['final_deleted'], key=key))} restart=.")
             if set(w["final_deleted"]) - set(w["deleted"]):
@@ -895,7 +904,7 @@ class AppliedLog:
                                 nontrivial=bool(w["applied"]))
         if rs is not None and not rs["open"] and all(v is not None for v in rs["disk"].values()):
             paths = [row[0] for row in rs["rows"]]
-            line = f"c14 applied {node_tok(rs['rows'])} {disk_tok(rs['disk'])} . . {hexlist(paths)}"
+            line = f"c14 applied {node_tok(rs['rows'])} {disk_tok(rs['disk'])} . . {hexlist(paths)} ."
             want = f"watch=. pruned=. deleted=. restart={applied_tok(rs['applied'])}"
             self.lines.append(line)
             self.expect.append((want, "restart", {**where, "round": nround}))
